@@ -25,6 +25,7 @@
 #include <zix/string_view.h>
 #include <zix/tree.h>
 
+#include <dirent.h>
 #include <errno.h>
 #include <fcntl.h>
 #include <stdbool.h>
@@ -588,8 +589,14 @@ static void run_fs(char** a, int n)
     char* r = zix_temp_directory_path(A);
     printf("res=%s", r ? "str" : "NULL");
     zix_free(A, r);
-  } else if (!strcmp(a[0], "mktmp")) {
-    snprintf(p1, sizeof(p1), "%s/tmpXXXXXX", scratch);
+  } else if (!strcmp(a[0], "mktmp") || !strcmp(a[0], "mktmpbad")) {
+    // mktmp: a valid pattern in an empty directory of its own; mktmpbad <k>: patterns the OS refuses (no XXXXXX
+    // suffix, missing parent, empty): NULL, nothing created, nothing outstanding
+    char dir[300];
+    snprintf(dir, sizeof(dir), "%s/tmpparent", scratch);
+    mkdir(dir, 0700);
+    const int bad = !strcmp(a[0], "mktmpbad") ? (n > 1 ? atoi(a[1]) : 0) + 1 : 0;
+    snprintf(p1, sizeof(p1), bad == 1 ? "%s/tmpXXXXX_" : bad == 2 ? "%s/missing/tmpXXXXXX" : bad == 3 ? "%.0s" : "%s/tmpXXXXXX", dir);
     char*       r = zix_create_temporary_directory(A, p1);
     struct stat sb;
     printf("res=%s isdir=%d", r ? "str" : "NULL", r && !stat(r, &sb) && S_ISDIR(sb.st_mode));
@@ -597,6 +604,24 @@ static void run_fs(char** a, int n)
       rmdir(r);
     }
     zix_free(A, r);
+    // what is left in the parent now that the returned directory (if any) is removed: a directory created by a call
+    // that reported failure would stay behind, its name unknown to the caller
+    int            left = 0;
+    DIR*           d    = opendir(dir);
+    struct dirent* e    = NULL;
+    while (d && (e = readdir(d))) {
+      if (strcmp(e->d_name, ".") && strcmp(e->d_name, "..")) {
+        char q[600];
+        snprintf(q, sizeof(q), "%s/%s", dir, e->d_name);
+        rmdir(q);
+        ++left;
+      }
+    }
+    if (d) {
+      closedir(d);
+    }
+    rmdir(dir);
+    printf(" left=%d", left);
   } else if (!strcmp(a[0], "copy") || !strcmp(a[0], "copyx")) {
     force_exdev = !strcmp(a[0], "copyx");
     write_file(p1, size, 3, -1);
